@@ -210,3 +210,27 @@ def check_policy_table(cx, rule, compress_only=False):
         cx.guard(rule, low, {'canonical-form': r'^arg1\.canonical_form$', 'policy-lowercases': r'^is\(arg2,(StandardRecord|Canonical)\)$|^in\(arg2,StandardRecord\|Canonical\)$'}, fn=w)
         cx.guard(rule, unc, {'not(standard-and-not-canonical)': r'^is\(arg2,(Canonical|Other)\)$|^in\(arg2,Canonical\|Other\)$|^arg1\.canonical_form$'}, fn=w)
         cx.check(rule, len(low) >= 1 and len(unc) >= 1, w.path, 'stores', 'mode-stores-present', f'lower={len(low)} uncompressed={len(unc)}')
+
+    # ---------------------------------------------------------------- S3 the label count behind the RRSIG Labels field (RFC 4034 3.1.3)
+    # "The value of the Labels field MUST NOT count either the null (root) label ... or the leftmost label if it is a wildcard":
+    # Name::num_labels feeds both the signer (SigInput::from_rrset) and the verifier (determine_name); it is the number of labels,
+    # minus one exactly when the LEFTMOST label is `*` - an asterisk label elsewhere (`sub.*.example.`) counts
+    nl = cx.fn('C05.S3', 'hickory_proto::rr::domain::name::Name::num_labels')
+    if nl:
+        COUNT = r'cast<u8>\(TinyVec::len\(\^?arg1\.label_ends\)\)'
+        r_ = cx.returns(nl, r'.')
+        ok = len(r_) == 1 and bool(re.fullmatch(r"Option::unwrap_or\(Option::map\(<LabelIter<'a> as Iterator>::next\(Name::iter\(arg1\)\),closure:Name::num_labels::\{closure@map#0\}\)," + COUNT + r'\)', r_[0].term))
+        cx.check('C05.S3', ok, nl.path, 'ret', 'label-count-adjusted-by-the-first-label-only', '; '.join(x.term[:140] for x in r_))
+        cl_ = cx.fn('C05.S3', 'hickory_proto::rr::domain::name::Name::num_labels::{closure@map#0}')
+        if cl_:
+            rr_ = cx.returns(cl_, r'.')
+            minus = [x for x in rr_ if re.fullmatch(r'subwithoverflow\(' + COUNT + r',1\)\.0', x.term)]
+            plain = [x for x in rr_ if re.fullmatch(COUNT, x.term)]
+            cx.check('C05.S3', len(rr_) == 2 and len(minus) == 1 and len(plain) == 1, cl_.path, 'ret', 'count-or-count-minus-one', '; '.join(x.term[:80] for x in rr_))
+            cx.guard('C05.S3', minus, {'leftmost-label-is-asterisk': r'^eq:\[u8\]\(arg2,lit:b"\*"\)$'}, fn=cl_)
+            cx.guard('C05.S3', plain, {'leftmost-label-is-not-asterisk': r'^!eq:\[u8\]\(arg2,lit:b"\*"\)$'}, fn=cl_)
+    # users of the count on both sides
+    si = [g for g in cx.prog.find(r'dnssec::rdata::sig::SigInput::from_rrset$')]
+    for g in si:
+        uses = cx.calls(g, r'Name::num_labels$')
+        cx.check('C05.S3', len(uses) >= 1, g.path, 'calls', 'signer-labels-field-from-num_labels', str(len(uses)))
